@@ -66,3 +66,415 @@ Check C02_rewind : forall fo n k s sn,
   (forall m sm, m < n -> steps (native_fn fo) m s = Some sm -> not_resolve sm) ->
   steps (native_fn fo) n s = Some sn -> k <= n ->
   exists s' sm, rnexts k sn = Some s' /\ steps (native_fn fo) (n - k) s = Some sm /\ eq_rev s' sm.
+
+(* ====================================================================================== *)
+(* REPLAY: stepping forward again after rewinding reproduces the original execution.      *)
+(* ====================================================================================== *)
+From Xeh Require Import Proofs.VmReplayBase Proofs.VmReplayWords Proofs.VmReplay.
+
+(* What [eq_rev] hides.  [eq_rev a b] holds exactly when the two states agree on the instruction
+   pointer, the data stack, the call frames with their locals, the loop stack, the vector-builder
+   marks, every variable (heap), the code, the dictionary, the current and the suspended contexts,
+   the pending control structures, THE REVERSE LOG ITSELF, the inputs and sources, the debug map,
+   the last token, the about-to-stop flag and the three limits: everything except the
+   instruction meter and the captured output. *)
+Theorem C02_eq_rev_is_the_complete_state : forall a b,
+  eq_rev a b <->
+  (ip a = ip b /\ ds a = ds b /\ rs a = rs b /\ loops a = loops b /\ special a = special b /\
+   heap a = heap b /\ code a = code b /\ dict a = dict b /\ cx a = cx b /\ nested a = nested b /\
+   flows a = flows b /\ rlog a = rlog b /\ input a = input b /\ sources a = sources b /\
+   dbg a = dbg b /\ last_tok a = last_tok b /\ stopping a = stopping b /\
+   insn_limit a = insn_limit b /\ heap_limit a = heap_limit b /\ stack_limit a = stack_limit b).
+Proof. exact eq_rev_same_machine. Qed.
+Check C02_eq_rev_is_the_complete_state : forall a b,
+  eq_rev a b <->
+  (ip a = ip b /\ ds a = ds b /\ rs a = rs b /\ loops a = loops b /\ special a = special b /\
+   heap a = heap b /\ code a = code b /\ dict a = dict b /\ cx a = cx b /\ nested a = nested b /\
+   flows a = flows b /\ rlog a = rlog b /\ input a = input b /\ sources a = sources b /\
+   dbg a = dbg b /\ last_tok a = last_tok b /\ stopping a = stopping b /\
+   insn_limit a = insn_limit b /\ heap_limit a = heap_limit b /\ stack_limit a = stack_limit b).
+
+(* a backward step gives EXACTLY the earlier state, except that the meter and the captured output
+   keep the values they had after the step (rnext never touches them) *)
+Theorem C02_rnext_undoes_step_exact : forall fo s s',
+  recording s = true -> log_ok s -> wf_marks s -> not_resolve s ->
+  fetch_and_run (native_fn fo) s = ROk tt s' ->
+  rnext s' = ROk tt (set_out (set_meter s (meter s')) (out s')).
+Proof. exact rnext_undoes_step_exact. Qed.
+Check C02_rnext_undoes_step_exact : forall fo s s',
+  recording s = true -> log_ok s -> wf_marks s -> not_resolve s ->
+  fetch_and_run (native_fn fo) s = ROk tt s' ->
+  rnext s' = ROk tt (set_out (set_meter s (meter s')) (out s')).
+
+(* so the invariants needed for further backward steps hold again *)
+Theorem C02_rnext_invariants : forall fo s s' s'',
+  recording s = true -> log_ok s -> wf_marks s -> not_resolve s ->
+  fetch_and_run (native_fn fo) s = ROk tt s' -> rnext s' = ROk tt s'' ->
+  recording s'' = true /\ log_ok s'' /\ wf_marks s'' /\ not_resolve s''.
+Proof. exact rnext_invariants. Qed.
+Check C02_rnext_invariants : forall fo s s' s'',
+  recording s = true -> log_ok s -> wf_marks s -> not_resolve s ->
+  fetch_and_run (native_fn fo) s = ROk tt s' -> rnext s' = ROk tt s'' ->
+  recording s'' = true /\ log_ok s'' /\ wf_marks s'' /\ not_resolve s''.
+
+(* ---------- step congruence ---------- *)
+(* every native word, run from two states that differ in the meter and the output only, gives the
+   same outcome: the same value / the same error kind and payload, and related states *)
+Theorem C02_word_respects_eq_rev : forall fo w f a b,
+  native_fn fo w = Some f -> eq_rev a b ->
+  match f a, f b with
+  | ROk x s, ROk y t => x = y /\ eq_rev s t
+  | RErr k p s, RErr k' p' t => k = k' /\ p = p' /\ eq_rev s t
+  | RPanic, RPanic => True
+  | RUnsup, RUnsup => True
+  | _, _ => False
+  end.
+Proof. exact word_congruence. Qed.
+Check C02_word_respects_eq_rev : forall fo w f a b,
+  native_fn fo w = Some f -> eq_rev a b ->
+  match f a, f b with
+  | ROk x s, ROk y t => x = y /\ eq_rev s t
+  | RErr k p s, RErr k' p' t => k = k' /\ p = p' /\ eq_rev s t
+  | RPanic, RPanic => True
+  | RUnsup, RUnsup => True
+  | _, _ => False
+  end.
+
+(* One instruction step (any opcode, Resolve included).  The step reads ONE thing that [eq_rev]
+   ignores: the meter, which is compared with the instruction limit.  [meter_ok j s] says that the
+   limit (if any) allows j more increments:
+     meter_ok j s = match insn_limit s with Some l => meter s + j <= l | None => True end. *)
+Theorem C02_step_respects_eq_rev : forall fo a b,
+  eq_rev a b -> meter_ok 2 a -> meter_ok 2 b ->
+  match fetch_and_run (native_fn fo) a, fetch_and_run (native_fn fo) b with
+  | ROk x s, ROk y t => x = y /\ eq_rev s t
+  | RErr k p s, RErr k' p' t => k = k' /\ p = p' /\ eq_rev s t
+  | RPanic, RPanic => True
+  | RUnsup, RUnsup => True
+  | _, _ => False
+  end.
+Proof. exact step_congruence. Qed.
+Check C02_step_respects_eq_rev : forall fo a b,
+  eq_rev a b -> meter_ok 2 a -> meter_ok 2 b ->
+  match fetch_and_run (native_fn fo) a, fetch_and_run (native_fn fo) b with
+  | ROk x s, ROk y t => x = y /\ eq_rev s t
+  | RErr k p s, RErr k' p' t => k = k' /\ p = p' /\ eq_rev s t
+  | RPanic, RPanic => True
+  | RUnsup, RUnsup => True
+  | _, _ => False
+  end.
+
+(* an instruction other than Resolve is metered once *)
+Theorem C02_step_respects_eq_rev_not_resolve : forall fo a b,
+  eq_rev a b -> not_resolve a -> meter_ok 1 a -> meter_ok 1 b ->
+  match fetch_and_run (native_fn fo) a, fetch_and_run (native_fn fo) b with
+  | ROk x s, ROk y t => x = y /\ eq_rev s t
+  | RErr k p s, RErr k' p' t => k = k' /\ p = p' /\ eq_rev s t
+  | RPanic, RPanic => True
+  | RUnsup, RUnsup => True
+  | _, _ => False
+  end.
+Proof. exact step_congruence_nr. Qed.
+Check C02_step_respects_eq_rev_not_resolve : forall fo a b,
+  eq_rev a b -> not_resolve a -> meter_ok 1 a -> meter_ok 1 b ->
+  match fetch_and_run (native_fn fo) a, fetch_and_run (native_fn fo) b with
+  | ROk x s, ROk y t => x = y /\ eq_rev s t
+  | RErr k p s, RErr k' p' t => k = k' /\ p = p' /\ eq_rev s t
+  | RPanic, RPanic => True
+  | RUnsup, RUnsup => True
+  | _, _ => False
+  end.
+
+(* without an instruction limit there is no side condition *)
+Theorem C02_step_respects_eq_rev_nolimit : forall fo a b,
+  eq_rev a b -> insn_limit a = None ->
+  match fetch_and_run (native_fn fo) a, fetch_and_run (native_fn fo) b with
+  | ROk x s, ROk y t => x = y /\ eq_rev s t
+  | RErr k p s, RErr k' p' t => k = k' /\ p = p' /\ eq_rev s t
+  | RPanic, RPanic => True
+  | RUnsup, RUnsup => True
+  | _, _ => False
+  end.
+Proof. exact step_congruence_nolimit. Qed.
+Check C02_step_respects_eq_rev_nolimit : forall fo a b,
+  eq_rev a b -> insn_limit a = None ->
+  match fetch_and_run (native_fn fo) a, fetch_and_run (native_fn fo) b with
+  | ROk x s, ROk y t => x = y /\ eq_rev s t
+  | RErr k p s, RErr k' p' t => k = k' /\ p = p' /\ eq_rev s t
+  | RPanic, RPanic => True
+  | RUnsup, RUnsup => True
+  | _, _ => False
+  end.
+
+(* FINDING: the side condition on the meter cannot be dropped.  Two states that differ in the
+   meter only; under an instruction limit one executes its Nop, the other is refused (ELimit). *)
+Theorem C02_step_respects_eq_rev_unmetered_refuted :
+  ~ (forall fo a b, eq_rev a b ->
+       match fetch_and_run (native_fn fo) a, fetch_and_run (native_fn fo) b with
+       | ROk x s, ROk y t => x = y /\ eq_rev s t
+       | RErr k p s, RErr k' p' t => k = k' /\ p = p' /\ eq_rev s t
+       | RPanic, RPanic => True
+       | RUnsup, RUnsup => True
+       | _, _ => False
+       end).
+Proof. exact step_congruence_needs_meter. Qed.
+Check C02_step_respects_eq_rev_unmetered_refuted :
+  ~ (forall fo a b, eq_rev a b ->
+       match fetch_and_run (native_fn fo) a, fetch_and_run (native_fn fo) b with
+       | ROk x s, ROk y t => x = y /\ eq_rev s t
+       | RErr k p s, RErr k' p' t => k = k' /\ p = p' /\ eq_rev s t
+       | RPanic, RPanic => True
+       | RUnsup, RUnsup => True
+       | _, _ => False
+       end).
+
+(* ---------- replay: related states run in lock step ---------- *)
+(* [a] is any state whose m-step run succeeds, [b] any related state with room under the limit
+   (a step increments the meter at most twice) *)
+Theorem C02_replay : forall fo m a b a',
+  eq_rev a b -> meter_ok (2 * Z.of_nat m) b ->
+  steps (native_fn fo) m a = Some a' ->
+  exists b', steps (native_fn fo) m b = Some b' /\ eq_rev a' b'.
+Proof. exact replay_steps. Qed.
+Check C02_replay : forall fo m a b a',
+  eq_rev a b -> meter_ok (2 * Z.of_nat m) b ->
+  steps (native_fn fo) m a = Some a' ->
+  exists b', steps (native_fn fo) m b = Some b' /\ eq_rev a' b'.
+
+(* exactly one increment per step when no Resolve is executed *)
+Theorem C02_replay_not_resolve : forall fo m a b a',
+  eq_rev a b -> meter_ok (Z.of_nat m) b ->
+  (forall i ai, i < m -> steps (native_fn fo) i a = Some ai -> not_resolve ai) ->
+  steps (native_fn fo) m a = Some a' ->
+  exists b', steps (native_fn fo) m b = Some b' /\ eq_rev a' b'.
+Proof. exact replay_steps_nr. Qed.
+Check C02_replay_not_resolve : forall fo m a b a',
+  eq_rev a b -> meter_ok (Z.of_nat m) b ->
+  (forall i ai, i < m -> steps (native_fn fo) i a = Some ai -> not_resolve ai) ->
+  steps (native_fn fo) m a = Some a' ->
+  exists b', steps (native_fn fo) m b = Some b' /\ eq_rev a' b'.
+
+Theorem C02_replay_nolimit : forall fo m a b a',
+  eq_rev a b -> insn_limit a = None ->
+  steps (native_fn fo) m a = Some a' ->
+  exists b', steps (native_fn fo) m b = Some b' /\ eq_rev a' b'.
+Proof. exact replay_steps_nolimit. Qed.
+Check C02_replay_nolimit : forall fo m a b a',
+  eq_rev a b -> insn_limit a = None ->
+  steps (native_fn fo) m a = Some a' ->
+  exists b', steps (native_fn fo) m b = Some b' /\ eq_rev a' b'.
+
+(* the run that ends in a failing step (or in an unsupported / panicking one): the replay fails
+   in the same way, with the same error kind and payload, in a related state *)
+Theorem C02_replay_final_step : forall fo m a b a',
+  eq_rev a b -> meter_ok (2 * Z.of_nat m + 2) b ->
+  steps (native_fn fo) m a = Some a' -> meter_ok 2 a' ->
+  exists b', steps (native_fn fo) m b = Some b' /\ eq_rev a' b' /\
+    match fetch_and_run (native_fn fo) a', fetch_and_run (native_fn fo) b' with
+    | ROk x s, ROk y t => x = y /\ eq_rev s t
+    | RErr k p s, RErr k' p' t => k = k' /\ p = p' /\ eq_rev s t
+    | RPanic, RPanic => True
+    | RUnsup, RUnsup => True
+    | _, _ => False
+    end.
+Proof. exact replay_steps_final. Qed.
+Check C02_replay_final_step : forall fo m a b a',
+  eq_rev a b -> meter_ok (2 * Z.of_nat m + 2) b ->
+  steps (native_fn fo) m a = Some a' -> meter_ok 2 a' ->
+  exists b', steps (native_fn fo) m b = Some b' /\ eq_rev a' b' /\
+    match fetch_and_run (native_fn fo) a', fetch_and_run (native_fn fo) b' with
+    | ROk x s, ROk y t => x = y /\ eq_rev s t
+    | RErr k p s, RErr k' p' t => k = k' /\ p = p' /\ eq_rev s t
+    | RPanic, RPanic => True
+    | RUnsup, RUnsup => True
+    | _, _ => False
+    end.
+
+Theorem C02_replay_final_step_nolimit : forall fo m a b a',
+  eq_rev a b -> insn_limit a = None ->
+  steps (native_fn fo) m a = Some a' ->
+  exists b', steps (native_fn fo) m b = Some b' /\ eq_rev a' b' /\
+    match fetch_and_run (native_fn fo) a', fetch_and_run (native_fn fo) b' with
+    | ROk x s, ROk y t => x = y /\ eq_rev s t
+    | RErr k p s, RErr k' p' t => k = k' /\ p = p' /\ eq_rev s t
+    | RPanic, RPanic => True
+    | RUnsup, RUnsup => True
+    | _, _ => False
+    end.
+Proof. exact replay_steps_final_nolimit. Qed.
+Check C02_replay_final_step_nolimit : forall fo m a b a',
+  eq_rev a b -> insn_limit a = None ->
+  steps (native_fn fo) m a = Some a' ->
+  exists b', steps (native_fn fo) m b = Some b' /\ eq_rev a' b' /\
+    match fetch_and_run (native_fn fo) a', fetch_and_run (native_fn fo) b' with
+    | ROk x s, ROk y t => x = y /\ eq_rev s t
+    | RErr k p s, RErr k' p' t => k = k' /\ p = p' /\ eq_rev s t
+    | RPanic, RPanic => True
+    | RUnsup, RUnsup => True
+    | _, _ => False
+    end.
+
+(* ---------- the full round trip ---------- *)
+(* n steps forward, k <= n backward, m <= k forward again: the state after n - k + m steps of the
+   original run, for every such n, k, m.  The meter is not rewound, so the m replayed steps need
+   room under the instruction limit (counted from the state the rewinding started in). *)
+Theorem C02_round_trip : forall fo n k m s sn,
+  recording s = true -> log_ok s -> wf_marks s ->
+  (forall i si, i < n -> steps (native_fn fo) i s = Some si -> not_resolve si) ->
+  steps (native_fn fo) n s = Some sn -> k <= n -> m <= k ->
+  meter_ok (Z.of_nat m) sn ->
+  exists s1 s2 t, rnexts k sn = Some s1 /\ steps (native_fn fo) m s1 = Some s2 /\
+                  steps (native_fn fo) (n - k + m) s = Some t /\ eq_rev s2 t.
+Proof. exact round_trip. Qed.
+Check C02_round_trip : forall fo n k m s sn,
+  recording s = true -> log_ok s -> wf_marks s ->
+  (forall i si, i < n -> steps (native_fn fo) i s = Some si -> not_resolve si) ->
+  steps (native_fn fo) n s = Some sn -> k <= n -> m <= k ->
+  meter_ok (Z.of_nat m) sn ->
+  exists s1 s2 t, rnexts k sn = Some s1 /\ steps (native_fn fo) m s1 = Some s2 /\
+                  steps (native_fn fo) (n - k + m) s = Some t /\ eq_rev s2 t.
+
+(* Arbitrary interleavings.  A walk is a list of moves Fwd | Back; [walk nf w s] performs them
+   (fetch_and_run / rnext); [walk_pos N w p] is the running position (None when it would go below 0
+   or above the horizon N up to which the original run is known to succeed; N may exceed n, so
+   forward moves beyond n continue the original execution); [fwd_count w] counts the Fwd moves.
+   Wherever the walk ends, the machine is in the state the original run had at that position,
+   and the invariants hold there, so the walk can be continued. *)
+Theorem C02_walk : forall fo N n s sN sn w q,
+  recording s = true -> log_ok s -> wf_marks s ->
+  (forall i si, i < N -> steps (native_fn fo) i s = Some si -> not_resolve si) ->
+  steps (native_fn fo) N s = Some sN -> n <= N -> steps (native_fn fo) n s = Some sn ->
+  meter_ok (Z.of_nat (fwd_count w)) sn ->
+  walk_pos N w n = Some q ->
+  exists cur sq, walk (native_fn fo) w sn = Some cur /\ steps (native_fn fo) q s = Some sq /\
+                 eq_rev cur sq /\ recording cur = true /\ log_ok cur /\ wf_marks cur.
+Proof. exact walk_round_trip. Qed.
+Check C02_walk : forall fo N n s sN sn w q,
+  recording s = true -> log_ok s -> wf_marks s ->
+  (forall i si, i < N -> steps (native_fn fo) i s = Some si -> not_resolve si) ->
+  steps (native_fn fo) N s = Some sN -> n <= N -> steps (native_fn fo) n s = Some sn ->
+  meter_ok (Z.of_nat (fwd_count w)) sn ->
+  walk_pos N w n = Some q ->
+  exists cur sq, walk (native_fn fo) w sn = Some cur /\ steps (native_fn fo) q s = Some sq /\
+                 eq_rev cur sq /\ recording cur = true /\ log_ok cur /\ wf_marks cur.
+
+(* The same with checkable hypotheses: a program that contains no Resolve instruction
+   ([resolve_freeb]: a boolean scan of the code vector; the code then never changes) and a machine
+   without an instruction limit. *)
+Theorem C02_round_trip_plain : forall fo n k m s sn,
+  recording s = true -> log_ok s -> wf_marks s -> resolve_freeb s = true -> insn_limit s = None ->
+  steps (native_fn fo) n s = Some sn -> k <= n -> m <= k ->
+  exists s1 s2 t, rnexts k sn = Some s1 /\ steps (native_fn fo) m s1 = Some s2 /\
+                  steps (native_fn fo) (n - k + m) s = Some t /\ eq_rev s2 t.
+Proof. exact round_trip_plain. Qed.
+Check C02_round_trip_plain : forall fo n k m s sn,
+  recording s = true -> log_ok s -> wf_marks s -> resolve_freeb s = true -> insn_limit s = None ->
+  steps (native_fn fo) n s = Some sn -> k <= n -> m <= k ->
+  exists s1 s2 t, rnexts k sn = Some s1 /\ steps (native_fn fo) m s1 = Some s2 /\
+                  steps (native_fn fo) (n - k + m) s = Some t /\ eq_rev s2 t.
+
+Theorem C02_walk_plain : forall fo N n s sN sn w q,
+  recording s = true -> log_ok s -> wf_marks s -> resolve_freeb s = true -> insn_limit s = None ->
+  steps (native_fn fo) N s = Some sN -> n <= N -> steps (native_fn fo) n s = Some sn ->
+  walk_pos N w n = Some q ->
+  exists cur sq, walk (native_fn fo) w sn = Some cur /\ steps (native_fn fo) q s = Some sq /\
+                 eq_rev cur sq /\ recording cur = true /\ log_ok cur /\ wf_marks cur.
+Proof. exact walk_round_trip_plain. Qed.
+Check C02_walk_plain : forall fo N n s sN sn w q,
+  recording s = true -> log_ok s -> wf_marks s -> resolve_freeb s = true -> insn_limit s = None ->
+  steps (native_fn fo) N s = Some sN -> n <= N -> steps (native_fn fo) n s = Some sn ->
+  walk_pos N w n = Some q ->
+  exists cur sq, walk (native_fn fo) w sn = Some cur /\ steps (native_fn fo) q s = Some sq /\
+                 eq_rev cur sq /\ recording cur = true /\ log_ok cur /\ wf_marks cur.
+
+(* FINDING: under an instruction limit the replay half of the property is false as stated.
+   rnext does not rewind the meter (neither does State::rnext in state.rs), so every replayed
+   step is metered a second time: four Nops under a limit of 5 run, two are rewound, the first
+   is replayed, the second is refused with ELimit (witness: round_trip_needs_meter). *)
+Theorem C02_round_trip_unmetered_refuted :
+  ~ (forall fo n k m s sn,
+       recording s = true -> log_ok s -> wf_marks s ->
+       (forall i si, i < n -> steps (native_fn fo) i s = Some si -> not_resolve si) ->
+       steps (native_fn fo) n s = Some sn -> k <= n -> m <= k ->
+       exists s1 s2 t, rnexts k sn = Some s1 /\ steps (native_fn fo) m s1 = Some s2 /\
+                       steps (native_fn fo) (n - k + m) s = Some t /\ eq_rev s2 t).
+Proof. exact round_trip_unmetered_refuted. Qed.
+Check C02_round_trip_unmetered_refuted :
+  ~ (forall fo n k m s sn,
+       recording s = true -> log_ok s -> wf_marks s ->
+       (forall i si, i < n -> steps (native_fn fo) i s = Some si -> not_resolve si) ->
+       steps (native_fn fo) n s = Some sn -> k <= n -> m <= k ->
+       exists s1 s2 t, rnexts k sn = Some s1 /\ steps (native_fn fo) m s1 = Some s2 /\
+                       steps (native_fn fo) (n - k + m) s = Some t /\ eq_rev s2 t).
+
+(* ---------- non-vacuity: a compiled program on the boot state ---------- *)
+From Xeh Require Import Model.Build Model.Boot.
+
+(* a global variable, a definition with a local, a counted loop calling it, a vector literal,
+   output: 22 instructions, 44 steps, x = 0 + 1 + 4 = 5 *)
+Definition c02_prog : string :=
+  "0 var x : sq local n n n * ; 3 0 do I sq x + ! x loop [ x 7 ] println"%string.
+Definition c02_start : state :=
+  match compile cex_fo (fun _ => None) 1000 1000 c02_prog (set_rlog boot (Some [])) with
+  | ROk _ s => s
+  | _ => boot
+  end.
+Definition c02_after (n : nat) : state :=
+  match steps (native_fn cex_fo) n c02_start with Some s => s | None => boot end.
+
+Example C02_example_hypotheses :
+  recording c02_start = true /\ log_ok c02_start /\ resolve_freeb c02_start = true /\
+  insn_limit c02_start = None /\ List.length (code c02_start) = 22 /\ ip c02_start = 0 /\
+  exists s44, steps (native_fn cex_fo) 44 c02_start = Some s44 /\ ip s44 = 22 /\
+              nth_error (heap s44) 6 = Some (CInt 5) /\ meter s44 = 44%Z.
+Proof.
+  split; [vm_compute; reflexivity|]. split; [vm_compute; exact I|].
+  split; [vm_compute; reflexivity|]. split; [vm_compute; reflexivity|].
+  split; [vm_compute; reflexivity|]. split; [vm_compute; reflexivity|].
+  eexists. split; [vm_compute; reflexivity|]. vm_compute. repeat split.
+Qed.
+Example C02_example_wf_marks : wf_marks c02_start.
+Proof. unfold wf_marks. vm_compute. repeat split; constructor. Qed.
+
+(* from the end: 34 steps back lands inside the first call of sq (a frame with a local, a loop
+   record), 31 steps forward again lands inside the vector literal (a vector-builder mark);
+   the meter shows that the steps really were executed again *)
+Example C02_example_round_trip :
+  exists s1 s2,
+    rnexts 34 (c02_after 44) = Some s1 /\ eq_rev s1 (c02_after 10) /\
+    ip s1 = 5 /\ rs s1 = [mkframe 3 13 [CInt 0]] /\ loops s1 = [mkloop CNil 0 3] /\
+    steps (native_fn cex_fo) 31 s1 = Some s2 /\ eq_rev s2 (c02_after 41) /\
+    ip s2 = 19 /\ special s2 = [0] /\ ds s2 = [CInt 5] /\ meter s2 = 75%Z.
+Proof.
+  do 2 eexists.
+  split; [vm_compute; reflexivity|]. split; [vm_compute; reflexivity|].
+  split; [vm_compute; reflexivity|]. split; [vm_compute; reflexivity|].
+  split; [vm_compute; reflexivity|]. split; [vm_compute; reflexivity|].
+  split; [vm_compute; reflexivity|]. vm_compute. repeat split.
+Qed.
+
+(* an interleaving that starts at position 30, goes back to 15, and ends at 35 *)
+Definition c02_walk : list move :=
+  [Back; Back; Back; Fwd; Back; Back; Back; Back; Back; Back; Back; Back; Back; Back; Back; Back; Back;
+   Fwd; Fwd; Fwd; Back; Fwd; Fwd; Fwd; Fwd; Fwd; Fwd; Fwd; Fwd; Fwd; Fwd; Fwd; Fwd; Fwd; Fwd; Fwd;
+   Fwd; Fwd; Fwd].
+Example C02_example_walk :
+  exists cur, walk_pos 44 c02_walk 30 = Some 35 /\
+              walk (native_fn cex_fo) c02_walk (c02_after 30) = Some cur /\
+              eq_rev cur (c02_after 35) /\ meter cur = 52%Z.
+Proof.
+  eexists. split; [vm_compute; reflexivity|]. split; [vm_compute; reflexivity|].
+  split; vm_compute; reflexivity.
+Qed.
+
+(* the witness of the finding, in full *)
+Example C02_example_limit_breaks_replay :
+  exists s4 s2 s3,
+    recording rt_s = true /\ log_ok rt_s /\ wf_marks rt_s /\
+    (forall i si, i < 4 -> steps (native_fn cex_fo) i rt_s = Some si -> not_resolve si) /\
+    steps (native_fn cex_fo) 4 rt_s = Some s4 /\
+    rnexts 2 s4 = Some s2 /\
+    fetch_and_run (native_fn cex_fo) s2 = ROk tt s3 /\
+    fetch_and_run (native_fn cex_fo) s3 = RErr ELimit None s3 /\
+    meter s2 = 4%Z.
+Proof. exact round_trip_needs_meter. Qed.
